@@ -581,6 +581,11 @@ class Evaluator:
             n = len(target.elts)
             if v[0] in ("tuple", "list") and len(v[1]) == n and not any(isinstance(e, ast.Starred) for e in target.elts):
                 for t, x in zip(target.elts, v[1]):
+                    if x[0] == "ifexp" and isinstance(t, ast.Name) and hasattr(p, "_choices"):
+                        # a conditional expression unpacked into a name: decided per path, like `if`
+                        idx = self.choose(p, 2)
+                        p.conds.append((x[1], idx == 0, st))
+                        x = x[2] if idx == 0 else x[3]
                     self.assign(t, x, p, st, None)
             else:
                 for i, t in enumerate(target.elts):
@@ -771,6 +776,7 @@ class Evaluator:
                     comp = ("comp", "list", cuid, rebind(eb), ((bound, info.iter, (("unop", "not", rebind(c)),)),))
             if comp is None:
                 continue
+            comp = fuse_comp(comp)
             self.comps[cuid] = (st, comp)
             if pre_t == ("list", ()):
                 p.env[name] = comp
@@ -1009,30 +1015,7 @@ class Evaluator:
             kwargs = []
             for k in node.keywords:
                 kwargs.append((k.arg, ev(k.value)))
-            if f == ("builtin", "divmod") and len(args) == 2 and not kwargs:
-                return ("tuple", (("binop", "//", args[0], args[1]), ("binop", "%", args[0], args[1])))
-            callee = self.resolve_package_callee(f, p)
-            if callee is not None and not any(a[0] == "star" for a in args) and not any(k is None for k, _ in kwargs):
-                args, kwargs = canonical_args(callee[0], callee[1], args, kwargs)
-            t = ("call", f, tuple(args), tuple(kwargs))
-            if f[0] == "attr" and f[2] == "format" and f[1][0] == "const" and isinstance(f[1][1], str) and not any(a[0] == "star" for a in args) and not any(k is None for k, _ in kwargs):
-                fs = format_call_as_fstr(f[1][1], list(args), list(kwargs))
-                if fs is not None:
-                    return fs
-            p.effects.append(Effect("call", t, node=node, maybe=maybe))
-            if callee is not None and self.inlinable(callee[0]):
-                stats = _INLINE_STATS.setdefault(id(self.p), {"ok": set(), "fail": set()})
-                r = NotImplemented if maybe else self.inline(callee[0], callee[1], t, p, node)
-                if r is not NotImplemented:
-                    stats["ok"].add(callee[0].qualname)
-                    return r
-                stats["fail"].add(callee[0].qualname)
-            # mutation of a local container through a method
-            if isinstance(node.func, ast.Attribute) and node.func.attr in MUTATORS and isinstance(node.func.value, ast.Name):
-                nm = node.func.value.id
-                if nm in p.env:
-                    p.env[nm] = ("mut", p.env[nm], node.func.attr, tuple(args))
-            return t
+            return self.call(f, args, kwargs, p, node, maybe)
         if isinstance(node, ast.BinOp):
             l = ev(node.left)
             r = ev(node.right)
@@ -1120,7 +1103,10 @@ class Evaluator:
                 e.maybe = True
                 p.effects.append(e)
             kind = {ast.ListComp: "list", ast.SetComp: "set", ast.GeneratorExp: "gen", ast.DictComp: "dict"}[type(node)]
-            t = ("comp", kind, uid, elt, tuple(gens))
+            t = fuse_comp(("comp", kind, uid, elt, tuple(gens)))
+            if kind == "list" and len(t[4]) == 1 and not t[4][0][2] and t[4][0][1][0] in ("tuple", "list") and 0 < len(t[4][0][1][1]) <= 8 and not any(x[0] == "star" for x in t[4][0][1][1]):
+                # comprehension over a short display: the list of its instances
+                return ("list", tuple(replace_terms(t[3], {t[4][0][0]: x}) for x in t[4][0][1][1]))
             self.comps[uid] = (node, t)
             return t
         if isinstance(node, ast.Starred):
@@ -1134,6 +1120,139 @@ class Evaluator:
         if isinstance(node, (ast.Await, ast.Yield, ast.YieldFrom)):
             return ("unknown", type(node).__name__)
         raise AnalysisError("expression kind %s (%s:%d)" % (type(node).__name__, self.module.relpath, getattr(node, "lineno", 0)))
+
+    # -- calls ---------------------------------------------------------------
+    _FACTORIES = ("operator.methodcaller", "operator.attrgetter", "operator.itemgetter", "functools.partial")
+
+    def ext_qualname(self, t):
+        """Dotted name of an object from outside the package (through any import style), or None."""
+        if not isinstance(t, tuple) or not t:
+            return None
+        if t[0] == "ext":
+            return t[1]
+        if t[0] == "global" and t[1] in self.p.modules:
+            r = self.p.resolve_module_name(self.p.modules[t[1]], t[2])
+            return r[1] if r and r[0] == "ext" else None
+        if t[0] == "attr":
+            b = self.ext_qualname(t[1])
+            return b + "." + t[2] if b else None
+        return None
+
+    def choose(self, p, k):
+        if p._cpos < len(p._choices):
+            idx = p._choices[p._cpos]
+            p._cpos += 1
+            return idx
+        raise _NeedChoice(k)
+
+    def _expand_star(self, args):
+        """f(*CONST_TUPLE) with a module-level constant tuple of scalars: positional constants."""
+        out = []
+        for a in args:
+            if a[0] == "star":
+                v = a[1]
+                if v[0] in ("tuple", "list") and not any(x[0] == "star" for x in v[1]):
+                    out.extend(v[1])
+                    continue
+                if v[0] == "global" and v[1] in self.p.modules:
+                    from .fold import Unfoldable
+                    try:
+                        val = _folder_of(self.p).module_const(v[1], v[2])
+                    except Unfoldable:
+                        val = None
+                    if isinstance(val, (tuple, list)) and len(val) <= 32 and all(isinstance(x, _SCALARS) for x in val):
+                        out.extend(("const", x) for x in val)
+                        continue
+            out.append(a)
+        return out
+
+    def apply_callable(self, fn, args, p, node, maybe):
+        """Term of fn(*args) for a callable TERM fn (lambda, functional factory object, anything else: a call term)."""
+        if fn[0] == "lambda" and len(fn[2]) == len(args) and not any(a[0] == "star" for a in args):
+            mp = {("bound", n, fn[1]): a for n, a in zip(fn[2], args)}
+            return replace_terms(fn[3], mp)
+        return self.call(fn, list(args), [], p, node, True if maybe else maybe)
+
+    def call(self, f, args, kwargs, p, node, maybe):
+        args = self._expand_star(args)
+        if f == ("builtin", "divmod") and len(args) == 2 and not kwargs:
+            return ("tuple", (("binop", "//", args[0], args[1]), ("binop", "%", args[0], args[1])))
+        nostar = not any(a[0] == "star" for a in args) and not any(k is None for k, _ in kwargs)
+        # --- functional idioms -> the plain expression they stand for
+        if f[0] == "call" and nostar and not any(a[0] == "star" for a in f[2]):
+            fq = self.ext_qualname(f[1])
+            if fq == "operator.methodcaller" and len(args) == 1 and not kwargs and f[2] and f[2][0][0] == "const" and isinstance(f[2][0][1], str):
+                return self.call(("attr", args[0], f[2][0][1]), list(f[2][1:]), list(f[3]), p, node, maybe)
+            if fq == "operator.attrgetter" and len(args) == 1 and not kwargs and f[2] and all(a[0] == "const" and isinstance(a[1], str) for a in f[2]):
+                outs = []
+                for a in f[2]:
+                    t = args[0]
+                    for part in a[1].split("."):
+                        cc = self._class_scalar(t, part)
+                        t = cc if cc is not None else ("attr", t, part)
+                    outs.append(t)
+                return outs[0] if len(outs) == 1 else ("tuple", tuple(outs))
+            if fq == "operator.itemgetter" and len(args) == 1 and not kwargs and f[2]:
+                outs = []
+                for a in f[2]:
+                    t = ("sub", args[0], a)
+                    p.effects.append(Effect("subscript", t, node=node, maybe=maybe))
+                    outs.append(t)
+                return outs[0] if len(outs) == 1 else ("tuple", tuple(outs))
+            if fq == "functools.partial" and f[2]:
+                return self.call(f[2][0], list(f[2][1:]) + list(args), list(f[3]) + list(kwargs), p, node, maybe)
+        if nostar and not kwargs:
+            fq = self.ext_qualname(f)
+            kind = None
+            if f == ("builtin", "filter") and len(args) == 2:
+                kind = "filter"
+            elif fq == "itertools.filterfalse" and len(args) == 2:
+                kind = "filterfalse"
+            elif f == ("builtin", "map") and len(args) == 2:
+                kind = "map"
+            if kind is not None:
+                uid = self.uid()
+                b = ("bound", "_x", uid)
+                q = Path(dict(p.env))
+                q._choices, q._cpos = [], 0
+                try:
+                    if kind == "map":
+                        elt, conds = self.apply_callable(args[0], [b], q, node, True), ()
+                    else:
+                        c = b if args[0] == NONE else self.apply_callable(args[0], [b], q, node, True)
+                        elt, conds = b, ((c,) if kind == "filter" else (("unop", "not", c),))
+                except (_NeedChoice, _PathEnded):
+                    elt = None
+                if elt is not None:
+                    for e in q.effects:
+                        e.maybe = True
+                        p.effects.append(e)
+                    t = fuse_comp(("comp", "gen", uid, elt, ((b, args[1], conds),)))
+                    self.comps[uid] = (node, t)
+                    return t
+        callee = self.resolve_package_callee(f, p)
+        if callee is not None and nostar:
+            args, kwargs = canonical_args(callee[0], callee[1], args, kwargs)
+        t = ("call", f, tuple(args), tuple(kwargs))
+        if f[0] == "attr" and f[2] == "format" and f[1][0] == "const" and isinstance(f[1][1], str) and nostar:
+            fs = format_call_as_fstr(f[1][1], list(args), list(kwargs))
+            if fs is not None:
+                return fs
+        p.effects.append(Effect("call", t, node=node, maybe=maybe))
+        if callee is not None and self.inlinable(callee[0]):
+            stats = _INLINE_STATS.setdefault(id(self.p), {"ok": set(), "fail": set()})
+            r = NotImplemented if maybe else self.inline(callee[0], callee[1], t, p, node)
+            if r is not NotImplemented:
+                stats["ok"].add(callee[0].qualname)
+                return r
+            stats["fail"].add(callee[0].qualname)
+        # mutation of a local container through a method
+        fnode = getattr(node, "func", None)
+        if isinstance(fnode, ast.Attribute) and fnode.attr in MUTATORS and isinstance(fnode.value, ast.Name) and f[0] == "attr" and f[2] == fnode.attr:
+            nm = fnode.value.id
+            if nm in p.env:
+                p.env[nm] = ("mut", p.env[nm], fnode.attr, tuple(args))
+        return t
 
     def _elts(self, elts, p, maybe):
         return [self.expr(e, p, maybe) for e in elts]
@@ -1494,6 +1613,33 @@ def canonical_global(prog, module, name, r):
                 return ("const", v)
         except Unfoldable:
             pass
+        # a module-level callable built by a functional factory (operator.methodcaller("startswith", ".")): the factory call itself
+        node = r[1].assigns[r[2]][0] if isinstance(r[1].assigns.get(r[2]), (list, tuple)) else None
+        node = getattr(node, "value", node)
+        if isinstance(node, ast.Call) and not node.keywords:
+            fr = prog.resolve_global_expr(r[1], node.func)
+            if fr and fr[0] == "ext" and fr[1] in Evaluator._FACTORIES[:3]:
+                args = []
+                okc = True
+                for a in node.args:
+                    try:
+                        if isinstance(a, ast.Starred):
+                            v = _folder_of(prog).eval(a.value, r[1])
+                            if not isinstance(v, (tuple, list)) or not all(isinstance(x, _SCALARS) for x in v):
+                                okc = False
+                                break
+                            args.extend(("const", x) for x in v)
+                        else:
+                            v = _folder_of(prog).eval(a, r[1])
+                            if not isinstance(v, _SCALARS):
+                                okc = False
+                                break
+                            args.append(("const", v))
+                    except Exception:
+                        okc = False
+                        break
+                if okc:
+                    return ("call", ("ext", fr[1]), tuple(args), ())
     if k == "func":
         f = r[1]
         if f.cls is None:
@@ -1591,6 +1737,28 @@ class _Subst:
         nl.carried = {n: (self.term(pre), [self.term(x) for x in posts]) for n, (pre, posts) in li.carried.items()}
         self.ev.loops[nl.uid] = nl
         return nl
+
+
+def replace_terms(t, mapping):
+    """Structural replacement of sub-terms (keys of `mapping`) everywhere in t."""
+    if not isinstance(t, tuple) or not t:
+        return t
+    if t in mapping:
+        return mapping[t]
+    return tuple(replace_terms(x, mapping) if isinstance(x, tuple) else x for x in t)
+
+
+def fuse_comp(t):
+    """[e(y) for y in (g(x) for x in it if c) if d(y)]  ==  [e(g(x)) for x in it if c if d(g(x))]:
+    a comprehension over a one-generator generator/list comprehension is fused into one comprehension."""
+    while t[0] == "comp" and len(t[4]) == 1:
+        b, it, conds = t[4][0]
+        if not (isinstance(it, tuple) and it and it[0] == "comp" and it[1] in ("gen", "list") and len(it[4]) == 1):
+            break
+        b2, it2, conds2 = it[4][0]
+        mp = {b: it[3]}
+        t = ("comp", t[1], t[2], replace_terms(t[3], mp), ((b2, it2, tuple(conds2) + tuple(replace_terms(c, mp) for c in conds)),))
+    return t
 
 
 def bp_result_term(bp):
